@@ -1,4 +1,5 @@
 """C12 Broken input makes the run fail visibly; it never hangs or loses reads silently."""
+import base64
 import gzip
 import json
 import os
@@ -123,6 +124,60 @@ def damage_cases(ctx, recs, paired_recs=None):
     return cases
 
 
+def execute(ctx, desc, recs, recs2, d1, d2, container_ok, gz, cores, bs, seed, w):
+    """One execution of the damaged input; returns (event without id, hook log, deadlock, result)."""
+    paired = d2 is not None
+    in1 = "in1.fastq.gz" if gz else "in1.fastq"
+    inputs = {in1: d1}
+    if paired:
+        inputs["in2.fastq"] = d2
+    argv = ["-u", "2"] + (["-U", "2", "-o", "o1.fastq", "-p", "o2.fastq", in1, "in2.fastq"] if paired
+                          else ["-o", "o1.fastq", in1])
+    if cores > 1:
+        argv = ["-j", str(cores), "--buffer-size", str(bs)] + argv
+        res, sched = RC.run_virtual(argv, inputs, os.path.join(ctx.scratch, "f"), vmp.RandomPolicy(seed, w, True))
+        deadlock = sched.deadlock
+        log = sched.log
+        if isinstance(res, Exception):
+            res = None
+    else:
+        res = run_cli(argv, inputs, os.path.join(ctx.scratch, "f"))
+        deadlock, log = None, []
+    e = dict(desc=desc, cores=cores, argv=" ".join(argv), paired=paired,
+             container_ok=container_ok,
+             lines1=split_lines(d1) if not gz else ([] if "big" in desc else split_lines(fastq_bytes(recs))),
+             lines2=split_lines(d2) if paired else [],
+             hung=bool(deadlock))
+    if res is None or deadlock:
+        e.update(exit=-9, message=False, out1=[], out2=[])
+    else:
+        crashed = res.exception is not None
+        # an uncaught exception ends the real program with a traceback on stderr and exit
+        # status 1: a visible failure (counted separately in the evidence)
+        e.update(exit=(res.exit if not crashed else 1), message=bool(res.errors) or crashed,
+                 out1=(prefix_of_big(res.files.get("o1.fastq", b"") or b"") if "big" in desc else
+                       match_output(res.files.get("o1.fastq", b"") or b"", recs)),
+                 out2=match_output(res.files.get("o2.fastq", b"") or b"", recs2) if paired else [])
+        if crashed:
+            e["crash"] = repr(res.exception)
+    e["policy"] = f"seed={seed},weights={w}"
+    e["_replay"] = dict(desc=desc, recs=recs, recs2=recs2, d1=base64.b64encode(d1).decode(),
+                        d2=base64.b64encode(d2).decode() if paired else None, container_ok=container_ok, gz=gz,
+                        cores=cores, bs=bs, seed=seed, w=w)
+    return e, log, deadlock, res
+
+
+def judge(ctx, events):
+    res = ctx.validate("Trace_Fault", "Trace_Fault.cfg", [{k: v for k, v in e.items() if k != "_replay"} for e in events])
+    byid = {e["id"]: e for e in events}
+    for i, clauses in res.items():
+        e = byid[i]
+        obs = {k: v for k, v in e.items() if k not in ("lines1", "lines2", "_replay")}
+        for c in clauses:
+            kind = e["desc"].split(" at byte")[0].split(":")[-1].strip() if "record" in e["desc"] else e["desc"].split(" at byte")[0]
+            ctx.violation(c, f"C12:{c}:{kind}:cores={'1' if e['cores'] == 1 else 'N'}", obs, case=dict(obs, replay=e.get("_replay")))
+
+
 def run(ctx):
     ctx.mc("MC_Runner", "MC_Runner_quick.cfg" if ctx.quick else "MC_Runner_thorough.cfg", workers=12, timeout=3000)
     rng = ctx.rng
@@ -140,39 +195,11 @@ def run(ctx):
                 inputs["in2.fastq"] = d2
             for cores in ((1, 2, 3) if not ctx.quick else (1, rng.choice((2, 3)))):
                 bs = rng.choice((130, 200, 100000)) if "big" not in desc else rng.choice((2000, 5000))
-                argv = ["-u", "2"] + (["-U", "2", "-o", "o1.fastq", "-p", "o2.fastq", in1, "in2.fastq"] if paired
-                                      else ["-o", "o1.fastq", in1])
-                if cores > 1:
-                    argv = ["-j", str(cores), "--buffer-size", str(bs)] + argv
-                    seed = rng.randrange(10**9)
-                    w = rng.choice((None, {"M": 0.05}, {"R": 0.05}, {"W0": 0.03}, {"M": 5.0}))
-                    res, sched = RC.run_virtual(argv, inputs, os.path.join(ctx.scratch, "f"), vmp.RandomPolicy(seed, w, True))
-                    deadlock = sched.deadlock
-                    log = sched.log
-                    if isinstance(res, Exception):
-                        res = None
-                else:
-                    res = run_cli(argv, inputs, os.path.join(ctx.scratch, "f"))
-                    deadlock, log, seed, w = None, [], 0, None
-                e = dict(id=len(events), desc=desc, cores=cores, argv=" ".join(argv), paired=paired,
-                         container_ok=container_ok,
-                         lines1=split_lines(d1) if not gz else ([] if "big" in desc else split_lines(fastq_bytes(recs))),
-                         lines2=split_lines(d2) if paired else [],
-                         hung=bool(deadlock))
-                if res is None or deadlock:
-                    e.update(exit=-9, message=False, out1=[], out2=[])
-                    hung += 1
-                else:
-                    crashed = res.exception is not None
-                    # an uncaught exception ends the real program with a traceback on stderr and exit
-                    # status 1: a visible failure (counted separately in the evidence)
-                    e.update(exit=(res.exit if not crashed else 1), message=bool(res.errors) or crashed,
-                             out1=(prefix_of_big(res.files.get("o1.fastq", b"") or b"") if "big" in desc else
-                                   match_output(res.files.get("o1.fastq", b"") or b"", recs)),
-                             out2=match_output(res.files.get("o2.fastq", b"") or b"", recs2) if paired else [])
-                    if crashed:
-                        e["crash"] = repr(res.exception)
-                e["policy"] = f"seed={seed},weights={w}"
+                seed = rng.randrange(10**9) if cores > 1 else 0
+                w = rng.choice((None, {"M": 0.05}, {"R": 0.05}, {"W0": 0.03}, {"M": 5.0})) if cores > 1 else None
+                e, log, deadlock, res = execute(ctx, desc, recs, recs2, d1, d2, container_ok, gz, cores, bs, seed, w)
+                e["id"] = len(events)
+                hung += bool(res is None or deadlock)
                 events.append(e)
                 if cores > 1 and log and not deadlock and res is not None:
                     nc = RC.infer_nc(log, e["exit"])
@@ -180,14 +207,7 @@ def run(ctx):
                     records.append(RC.trace_record(tid, log, cores, nc, e["exit"],
                                                    ["none", "badchunk", "readerfail", "startfail"]))
                     meta[tid] = dict(desc=desc, argv=e["argv"], policy=e["policy"])
-    res = ctx.validate("Trace_Fault", "Trace_Fault.cfg", events)
-    byid = {e["id"]: e for e in events}
-    for i, clauses in res.items():
-        e = byid[i]
-        obs = {k: v for k, v in e.items() if k not in ("lines1", "lines2")}
-        for c in clauses:
-            kind = e["desc"].split(" at byte")[0].split(":")[-1].strip() if "record" in e["desc"] else e["desc"].split(" at byte")[0]
-            ctx.violation(c, f"C12:{c}:{kind}:cores={'1' if e['cores'] == 1 else 'N'}", obs, case=obs)
+    judge(ctx, events)
     verdicts = RC.validate_traces(ctx, records)
     rejected = {t: v for t, v in verdicts.items() if v is not None}
     ctx.extra["executions"] = len(events)
@@ -260,6 +280,19 @@ def real_runs(ctx, rng):
 
 
 def replay(ctx, path):
+    """Re-execute the stored damaged input (same bytes, same cores / buffer size / schedule seed) and judge it again."""
     rp = json.load(open(path))
-    print(json.dumps(rp["observation"], indent=1)[:3000])
-    ctx.violation(rp["clause"], rp["signature"], rp["observation"])
+    r = (rp.get("case") or {}).get("replay")
+    if not r:
+        print("replay: this file carries no re-executable case (real-process run or older file); stored observation:")
+        print(json.dumps(rp["observation"], indent=1)[:3000])
+        raise SystemExit(2)
+    recs = [tuple(x) for x in r["recs"]]
+    recs2 = [tuple(x) for x in r["recs2"]]
+    d1 = base64.b64decode(r["d1"])
+    d2 = base64.b64decode(r["d2"]) if r["d2"] is not None else None
+    e, log, deadlock, res = execute(ctx, r["desc"], recs, recs2, d1, d2, r["container_ok"], r["gz"], r["cores"], r["bs"], r["seed"], r["w"])
+    e["id"] = 0
+    judge(ctx, [e])
+    print(f"replay: {e['argv']} on '{r['desc']}' re-executed: exit={e['exit']} message={e['message']} hung={e['hung']}; "
+          f"{len(ctx.violations)} clause(s) rejected")
